@@ -179,9 +179,14 @@ def check_restoring(w, rep):
         if got is None:
             continue
         f, I, O, parts, mod, W = got
+        if parts == "reversed":
+            rep.fail(R, "%s: the norm-limited feedback keeps the direction of the unlimited one" % key,
+                     "the limited branch is -L u/|u|: for a large error (limit active) the force points away from the set-point and the error grows, which keeps the limit active", where=W)
+            continue
         if parts is None:
             rep.incomplete(R, "%s: feedback term" % key, "cannot isolate the PD term of the demanded force", where=W)
             continue
+        rep.ok(R, "%s: the norm-limited feedback keeps the direction of the unlimited one" % key)
         L, us, rests = parts
         u = MatVal(3, 1, [[x] for x in us])
         zi = O.get("z_i_2")
@@ -297,6 +302,42 @@ def check_frames(w, rep, keys):
     rep.floor(R, 6)
 
 
+def check_attitude_invariance(w, rep):
+    """The attitude laws feed a BODY-rate loop: the command must depend on the measured and reference attitudes only
+    through X^-1 X_r, i.e. be unchanged when both are multiplied from the left by the same rotation p (a change of the
+    world frame / of the heading at which the vehicle hovers).  log(X_r X^-1) is the same vector expressed in the world
+    frame: it passes every check at heading 0 and destabilises roll/pitch at other headings (seeded C17-5)."""
+    from .c15 import get_fn
+    R = "C17.invariance"
+    Q = w.G("SO3Quat")
+    kp, q, qr, pq = w.sym("kp", 3), w.sym("q", 4), w.sym("q_r", 4), w.sym("p", 4)
+    quats = [tuple(sym_atoms_of(x)) for x in (q, qr, pq)]
+    P = w.elem(Q, pq)
+    lq = w.param(w.call(Q, "product", P, w.elem(Q, q)))
+    lqr = w.param(w.call(Q, "product", P, w.elem(Q, qr)))
+    for modname, fn, key in (("cyecca.models.rdd2", "derive_attitude_control", "attitude_control"),
+                             ("cyecca.models.rdd2_loglinear", "derive_so3_attitude_control", "so3_attitude_control")):
+        f, _ = get_fn(w, rep, modname, fn, key, rule="C17.wiring")
+        if f is None:
+            continue
+        W = w.where(modname, fn)
+        inst = "%s(p q, p q_r) = %s(q, q_r) for every rotation p (the law depends on X^-1 X_r only)" % (key, key)
+        k1 = cm.vertcat(w.sym("k"), w.sym("k"), w.sym("k")) if key == "so3_attitude_control" else kp      # equal gains: J_l(e) e = e, no series atoms of |e|
+        with with_maxdeg(40):
+            ok, vals = guarded(w, rep, R, inst, lambda: (closed(w, f(k1, q, qr)), closed(w, f(k1, lq, lqr))))
+            if not ok:
+                continue
+            A, B = vals
+            v, d = decide_mat(B, A, quats)
+        if v == EQUAL:
+            rep.ok(R, inst)
+        elif v == DIFFERENT:
+            rep.fail(R, inst, "the commanded body rate changes when measured and reference attitude are rotated together: the error is not expressed in the body frame (heading-dependent loop gain): %s" % d, where=W)
+        else:
+            rep.incomplete(R, inst, "cannot decide: %s" % d, where=W)
+    rep.floor(R, 2)
+
+
 def positive_const(v):
     """True if v is a positive constant (rationals and sqrt(1/2)-type atoms only), False if non-positive, None otherwise."""
     if not v.t:
@@ -342,13 +383,15 @@ def run(w, rep, tier):
     rep.rule("C17.signs", "plant force->(thrust, moment) map (default geometry) times the mixer is diagonal with positive entries")
     rep.rule("C17.restoring", "at the level hover equilibrium dF/dp and dF/dv of both cascades' demanded force are negative diagonal constants and the height integrator integrates reference minus position (necessary for convergence)")
     rep.rule("C17.frames", "rotate_vector_w_to_b / _b_to_w are R(q)^T v / R(q) v, and every call site in the script applies them to a vector whose name declares the source frame and stores the result under a name that declares the target frame")
+    rep.rule("C17.invariance", "the attitude laws are invariant under a common left multiplication of measured and reference attitude (they command a body rate from X^-1 X_r)")
     rep.rule("C17.gains", "feedback gains in the script are non-negative")
     keys = script_merges(w, rep)
     check_script_calls(w, rep, keys)
     check_sign_conventions(w, rep)
     check_restoring(w, rep)
     check_frames(w, rep, keys)
+    check_attitude_invariance(w, rep)
     check_gains(w, rep)
     rep.floor("C17.signs", 16)
-    rep.floor("C17.restoring", 38)
+    rep.floor("C17.restoring", 40)
     rep.undecided_clause("stabilisation of the closed loop (convergence of trajectories): NOT decided by static analysis; the script needs ROS and cannot even be imported here")
